@@ -126,7 +126,7 @@ def main(argv=None):
                     ctx.violations.append({"sig": {"clause": "replay"}, "replay": a.replay})
         else:
             mod.run(ctx)
-        if not a.replay:
+        if not a.replay and not os.environ.get("CVH_NO_EVIDENCE"):     # mutation testing against a scratch tree leaves the evidence of /repo alone
             write_evidence(ctx, getattr(mod, "LEVEL", "model_checking"), getattr(ctx, "extra", None))
     except tlc.MachineryError as e:
         print("MACHINERY: %s" % (e,))
